@@ -352,6 +352,7 @@ func (r *srun) finish() {
 	}
 	// clean the bubble whatever happened, then look for leftovers
 	r.emit(obs{E: "Free"}) // end of the verdict phase (validated by Trace_SimpleV1); what follows is harness clean-up
+	r.emit(obs{E: "Final"}) // monitor: a discipline that ended normally owes everything that was written (also what was written after a premature end)
 	r.cancel()
 	r.finishAllHandles()
 	if r.ver == 1 && !r.stopReq && !terminated() {
